@@ -144,10 +144,12 @@ Proof. intros C W sem value_hazard. exact (parsed_typed_by sem value_hazard). Qe
 Print Assumptions C02_parsed_records_are_typed.
 
 (* Scheme-less column set: the header selects no scheme, the first record's
-   names become the column line.  HYPOTHESIS `carriable (record_names r1)`:
-   there is at least one column, no name contains TAB, CR or LF, and the FIRST
-   name does not start with '#'.  (Without it the property fails - see
-   C02_hash_name_refuted / C02_separator_name_refuted below; known findings.)
+   names become the column line.  The writer accepting the first record
+   implies that the format can carry its column names: the repaired
+   MafWriter.__iadd__ refuses a first name starting with '#' and any name
+   containing TAB, CR or LF with ValueError before writing anything
+   (C02_uncarriable_names_refused below; formerly two known findings).  The
+   only premise left on the names: there is at least one column.
    Then: the reader settles on exactly those names, returns one record per
    record whose cells are the same names in the same order, each holding the
    text that was written for it, without validation error; the second write
@@ -164,7 +166,7 @@ Theorem C02_round_trip_schemeless :
     forall hl m0 lg0 l0 (h : header) (m : mode) (r1 : mrec C W) (rest : list (mrec C W)) (translate : bool),
       header_from_lines registry hl m0 lg0 = (l0, Ok h) -> Forall no_crlf hl ->
       h_scheme registry (hrecs h) = Ok None ->
-      carriable (record_names r1) ->
+      record_names r1 <> [] ->
       let s := no_restrictions (record_names r1) in
       let rs := r1 :: rest in
       let w1 := write_file sem registry h (Some m) rs in
@@ -197,6 +199,25 @@ Proof.
   apply norestr_class in E. discriminate.
 Qed.
 Print Assumptions C02_schemeless_values_are_texts.
+
+(* column names the format cannot carry are refused by a scheme-less writer:
+   `writer += record` raises ValueError, the writer is unchanged (nothing was
+   written for the record, the scheme is not fixed), the session is not clean *)
+Theorem C02_uncarriable_names_refused :
+  forall (C W : Type) (sem : colsem C W) (registry : list (scheme (cls C)))
+         (h : header) (m : mode) (r1 : mrec C W) (rest : list (mrec C W)) lg w,
+    writer_init registry h (Some m) = (lg, Ok w) -> h_scheme registry (hrecs h) = Ok None ->
+    names_writable (record_names r1) = false ->
+    writer_iadd sem w r1 = ([], w, Raise ValueError) /\
+    wr_clean (write_file sem registry h (Some m) (r1 :: rest)) = false.
+Proof. intros C W sem registry. exact (uncarriable_names_refused sem registry). Qed.
+Print Assumptions C02_uncarriable_names_refused.
+
+(* ... and what passes the writer's check is what the column line can carry *)
+Theorem C02_writable_names_are_carriable :
+  forall names : list str, names <> [] -> names_writable names = true -> carriable names.
+Proof. exact names_writable_carriable. Qed.
+Print Assumptions C02_writable_names_are_carriable.
 
 (* Scheme-less header and no record at all (Silent): only the pragma lines are
    written - nothing for an empty header; the reader returns the same header
@@ -315,7 +336,7 @@ Example demo_layout_outcome :
     option_map (@wr_text unit str) (rt_second rt) = Some (wr_text (rt_first rt)).
 Proof. intros [|]; vm_compute; repeat split; reflexivity. Qed.
 
-(* ---------- the scheme-less hazards (known findings of maf-lib) ---------- *)
+(* ---------- scheme-less column names ---------- *)
 Definition empty_header : header :=
   match header_from_lines (@nil (scheme (cls unit))) [] (Some Silent) LgRoot with
   | (_, Ok h) => h
@@ -334,47 +355,25 @@ Example demo_schemeless_ok :
   option_map (@wr_text unit str) (rt_second rt) = Some (wr_text (rt_first rt)).
 Proof. vm_compute. repeat split; reflexivity. Qed.
 
-(* REFUTED without the hypothesis on the first name: names '#x', 'y' and the
-   record ('1', '2').  The writer accepts everything and writes
-   "#x\ty\n1\t2\n"; the reader takes the column line for a (malformed) pragma,
-   takes '1', '2' for the column names and returns no record; the second write
-   is empty.  Signature "scheme-less-first-column-name-starts-with-hash". *)
-Theorem C02_hash_name_refuted :
-  exists (names : list str) (line : str),
-    let rt := plain_rt names line in
-    wr_clean (rt_first rt) = true /\
-    startswith (hd [] names) [HASH] = true /\
-    (exists rd, run_init (rt_read rt) = Ok rd /\
-                option_map (@s_names unit) (rd_scheme rd) = Some [[49]%N; [50]%N] /\
-                option_map (@s_names unit) (rd_scheme rd) <> Some names) /\
-    run_recs (rt_read rt) = [] /\
-    option_map (@wr_text unit str) (rt_second rt) = Some [] /\
-    wr_text (rt_first rt) = [35;120;9;121;10; 49;9;50;10]%N.
-Proof.
-  exists [[35;120]%N; [121]%N], [49;9;50]%N. cbv zeta.
-  split; [vm_compute; reflexivity|]. split; [reflexivity|]. split.
-  - eexists. split; [vm_compute; reflexivity|]. split; [vm_compute; reflexivity|]. vm_compute. discriminate.
-  - repeat split; vm_compute; reflexivity.
-Qed.
-Print Assumptions C02_hash_name_refuted.
+(* the former hazards (fixed in maf-lib, e6be83f): names '#x', 'y' - the column
+   line would be read back as a pragma - and 'a<TAB>b', 'c' - three names would
+   come back for two fields.  The writer now refuses both: nothing is written,
+   the session is not clean, so they are outside the property's premise.
+   (The regress seed C02-uncarriable-names re-introduces the defect; the
+   check's corpus holds both inputs.) *)
+Theorem C02_hash_name_refused :
+  let rt := plain_rt [[35;120]%N; [121]%N] [49;9;50]%N in
+  wr_clean (rt_first rt) = false /\ wr_text (rt_first rt) = [] /\
+  map (fun o => snd o) (wr_adds (rt_first rt)) = [Raise ValueError].
+Proof. vm_compute. repeat split; reflexivity. Qed.
+Print Assumptions C02_hash_name_refused.
 
-(* REFUTED without the hypothesis on separators: names 'a<TAB>b', 'c' and the
-   record ('1', '2'): three names come back for two fields.
-   Signature "scheme-less-column-name-contains-separator". *)
-Theorem C02_separator_name_refuted :
-  exists (names : list str) (line : str),
-    let rt := plain_rt names line in
-    wr_clean (rt_first rt) = true /\
-    (exists rd, run_init (rt_read rt) = Ok rd /\
-                option_map (@s_names unit) (rd_scheme rd) = Some [[97]%N; [98]%N; [99]%N]) /\
-    map (@merrs unit str) (run_recs (rt_read rt)) = [[mkerr T_RECORD_MISMATCH_NUMBER_OF_COLUMNS (Some 2)]].
-Proof.
-  exists [[97;9;98]%N; [99]%N], [49;9;50]%N. cbv zeta.
-  split; [vm_compute; reflexivity|]. split.
-  - eexists. split; vm_compute; reflexivity.
-  - vm_compute. reflexivity.
-Qed.
-Print Assumptions C02_separator_name_refuted.
+Theorem C02_separator_name_refused :
+  let rt := plain_rt [[97;9;98]%N; [99]%N] [49;9;50]%N in
+  wr_clean (rt_first rt) = false /\ wr_text (rt_first rt) = [] /\
+  map (fun o => snd o) (wr_adds (rt_first rt)) = [Raise ValueError].
+Proof. vm_compute. repeat split; reflexivity. Qed.
+Print Assumptions C02_separator_name_refused.
 
 (* the side condition of record_fixpoint is needed too: a class whose value
    "one null element" renders as the empty text, which builds the empty list
